@@ -218,6 +218,10 @@ impl AsyncFileSystem for AsyncOverlayFS {
         if self.read_path(path).await?.metadata().await?.file_type != VfsFileType::Directory {
             return Err(VfsErrorKind::Other("Not a directory".into()).into());
         }
+        // children may live in lower layers only
+        if self.read_dir(path).await?.next().await.is_some() {
+            return Err(VfsErrorKind::Other("Directory to remove is not empty".into()).into());
+        }
         let write_path = self.write_path(path)?;
         if write_path.exists().await? {
             write_path.remove_dir().await?;
